@@ -4,8 +4,8 @@ import hashlib, json, os, sys, time
 VERIF = os.path.dirname(os.path.dirname(os.path.abspath(__file__)))
 REPO = os.environ.get("FSV_REPO", "/repo")
 CACHE = os.path.join(VERIF, ".cache")
-EVIDENCE = os.path.join(VERIF, "evidence")
-REPLAYS = os.path.join(VERIF, "replays")
+EVIDENCE = os.environ.get("FSV_EVIDENCE", os.path.join(VERIF, "evidence"))
+REPLAYS = os.environ.get("FSV_REPLAYS", os.path.join(VERIF, "replays"))
 KNOWN = os.path.join(VERIF, "known_findings.json")
 HARNESS_VERSION = "1"
 
